@@ -401,6 +401,9 @@ VFfieldname(int32 vkey, int32 index)
     if (vs->wlist.n == 0)
         HGOTO_ERROR(DFE_BADFIELDS, NULL);
 
+    if (index < 0 || index >= (int32)vs->wlist.n)
+        HGOTO_ERROR(DFE_BADFIELDS, NULL);
+
     ret_value = ((char *)vs->wlist.name[index]);
 
 done:
@@ -432,6 +435,9 @@ VFfieldtype(int32 vkey, int32 index)
         HGOTO_ERROR(DFE_ARGS, FAIL);
 
     if (vs->wlist.n == 0)
+        HGOTO_ERROR(DFE_BADFIELDS, FAIL);
+
+    if (index < 0 || index >= (int32)vs->wlist.n)
         HGOTO_ERROR(DFE_BADFIELDS, FAIL);
 
     ret_value = ((int32)vs->wlist.type[index]);
@@ -468,6 +474,9 @@ VFfieldisize(int32 vkey, int32 index)
     if (vs->wlist.n == 0)
         HGOTO_ERROR(DFE_BADFIELDS, FAIL);
 
+    if (index < 0 || index >= (int32)vs->wlist.n)
+        HGOTO_ERROR(DFE_BADFIELDS, FAIL);
+
     ret_value = ((int32)vs->wlist.isize[index]);
 
 done:
@@ -502,6 +511,9 @@ VFfieldesize(int32 vkey, int32 index)
     if (vs->wlist.n == 0)
         HGOTO_ERROR(DFE_BADFIELDS, FAIL);
 
+    if (index < 0 || index >= (int32)vs->wlist.n)
+        HGOTO_ERROR(DFE_BADFIELDS, FAIL);
+
     ret_value = ((int32)vs->wlist.esize[index]);
 
 done:
@@ -533,6 +545,9 @@ VFfieldorder(int32 vkey, int32 index)
         HGOTO_ERROR(DFE_ARGS, FAIL);
 
     if (vs->wlist.n == 0)
+        HGOTO_ERROR(DFE_BADFIELDS, FAIL);
+
+    if (index < 0 || index >= (int32)vs->wlist.n)
         HGOTO_ERROR(DFE_BADFIELDS, FAIL);
 
     ret_value = ((int32)vs->wlist.order[index]);
